@@ -32,6 +32,7 @@ type World struct {
 	SSAFuncs []*ssa.Function
 
 	stats map[string]int
+	reach map[string]bool
 }
 
 type FuncInfo struct {
